@@ -87,9 +87,21 @@ theorem no_panic_udpNewUnpacker (idLen : Nat) (found : Bool) (b : Bytes)
 theorem no_panic_udpServerUnpack (C : Ciphers) (now : Int) (hdr : Nat) (replayed : Bool) (b : Bytes) (ps pl : Nat)
     (hb : ps + pl ≤ b.length) (hh : Gen.C06.UDPSeparateHeaderLength ≤ hdr) : udpServerUnpack C now hdr replayed b ps pl ≠ .panic :=
   np_udpServerUnpack C now hdr replayed b ps pl hb hh
-theorem no_panic_udpClientUnpack (C : Ciphers) (hC : C.LenPreserving) (now : Int) (csid : Nat) (sessOk replayed : Bool)
-    (b : Bytes) (ps pl : Nat) (hb : ps + pl ≤ b.length) : udpClientUnpack C now csid sessOk replayed b ps pl ≠ .panic :=
-  np_udpClientUnpack C hC now csid sessOk replayed b ps pl hb
+/-- FULL STATEMENT: the client unpacker for every datagram, every state of its two server-session slots (both start as
+{id 0, no AEAD}), every separate-header session / packet id (0, equal to a slot, equal to the client session id, 2^64-1 …).
+Depends on the regenerated fact `clientUnpackerGuardsNilAEAD` (every switch case that takes a slot's AEAD also requires it to
+be non-nil); without it a header with server session id 0 selects a nil `cipher.AEAD` and `Open` panics before any
+authentication (witness `udp_client_unpack_nil_aead_panics`). -/
+theorem no_panic_udpClientUnpack (C : Ciphers) (hC : C.LenPreserving) (now : Int) (csid : Nat) (sess : CliSess) (tooSoon replayed : Bool)
+    (b : Bytes) (ps pl : Nat) (hb : ps + pl ≤ b.length) :
+    udpClientUnpack Gen.C06.clientUnpackerGuardsNilAEAD C now csid sess tooSoon replayed b ps pl ≠ .panic := by
+  have hg : Gen.C06.clientUnpackerGuardsNilAEAD = true := by decide
+  rw [hg]
+  exact np_udpClientUnpack C hC now csid sess tooSoon replayed b ps pl hb
+/-- witness: fresh session, 32 zero bytes (separate header = session id 0, packet id 0; junk body), unguarded switch -/
+theorem udp_client_unpack_nil_aead_panics :
+    udpClientUnpack false ⟨id, fun _ _ => none⟩ 0 7 ⟨0, false, 0, false⟩ false false (List.replicate 32 0) 0 32 = .panic := by decide
+example : udpClientUnpack true ⟨id, fun _ _ => none⟩ 0 7 ⟨0, false, 0, false⟩ false false (List.replicate 32 0) 0 32 = .err .aead := by decide
 example : (3 : Nat) + 40 ≤ (List.replicate 50 (0 : UInt8)).length := by decide
 
 /-- the session relay's receive path for one datagram: `SessionInfo` → `NewUnpacker` → `UnpackInPlace` -/
@@ -377,7 +389,7 @@ theorem shape_ShadowPacketServerUnpack : Gen.C06.ShadowPacketServerUnpack_shape 
     ["if packetLen < p.nonAEADHeaderLen+p.aead.Overhead() => return", "b[packetStart : packetStart+UDPSeparateHeaderLength]", "separateHeader[4:16]", "b[messageHeaderStart : packetStart+packetLen]", "call Uint64", "separateHeader[8:]", "ciphertext[:0]", "call .MustAdd"] := rfl
 
 theorem shape_ShadowPacketClientUnpack : Gen.C06.ShadowPacketClientUnpack_shape =
-    ["if packetLen < UDPSeparateHeaderLength+16 => return", "b[packetStart:messageHeaderStart]", "separateHeader[4:16]", "b[messageHeaderStart : packetStart+packetLen]", "call Uint64", "call Uint64", "separateHeader[8:]", "case time.Since(p.oldServerSessionLastSeenTime) < time.Minute", "separateHeader[:8]", "ciphertext[:0]", "call .MustAdd"] := rfl
+    ["if packetLen < UDPSeparateHeaderLength+16 => return", "b[packetStart:messageHeaderStart]", "separateHeader[4:16]", "b[messageHeaderStart : packetStart+packetLen]", "call Uint64", "call Uint64", "separateHeader[8:]", "case ssid == p.currentServerSessionID && p.currentServerSessionAEAD != nil", "case ssid == p.oldServerSessionID && p.oldServerSessionAEAD != nil", "case time.Since(p.oldServerSessionLastSeenTime) < time.Minute", "separateHeader[:8]", "ciphertext[:0]", "call .MustAdd"] := rfl
 
 theorem shape_DirectServerPack : Gen.C06.DirectServerPack_shape =
     ["call .IPPort"] := rfl
@@ -603,6 +615,7 @@ end SSV.C06
 #print axioms SSV.C06.no_panic_udpNewUnpacker
 #print axioms SSV.C06.no_panic_udpServerUnpack
 #print axioms SSV.C06.no_panic_udpClientUnpack
+#print axioms SSV.C06.udp_client_unpack_nil_aead_panics
 #print axioms SSV.C06.no_panic_udpServerReceive
 #print axioms SSV.C06.no_panic_socks5_server
 #print axioms SSV.C06.no_panic_socks5_client
